@@ -70,7 +70,7 @@ def run(tier: str, seed: int) -> int:
     t0 = time.time()
     th = tier == "thorough"
     maxf, dm, dv = (3, 4, 2) if th else (2, 3, 2)
-    vecs = G.enumerate_models(dm, maxf, CATS)
+    vecs = G.enumerate_models(dm, maxf, CATS, twins=True)
     tasks = []
     for v in vecs:
         tasks.append(("c18.eval", dict(vec=v, maxf=maxf, free_values=True), 0, ()))
